@@ -61,6 +61,22 @@ CHECKS = {
              "Known findings D13, D15 are excused only on the exact trigger/clause recorded in known_findings.json.",
         technique="TLA+ model checking (TLC) of Wrap.tla + spec->code replay + batch trace validation (WrapTrace.tla)",
         design="§6 C05"),
+    "C06": dict(
+        level="model_checking",
+        text="spec/Segments.tla models the tag-aware wrapper (add_tag_newline_handling around the greedy fill: segmentation at tag-adjacent "
+             "newlines and block-looking lines, paired-tag tokens, denormalisation, blank-line joins, _fix_closing_tag_spacing, "
+             "_fix_multiline_opening_tag_with_closing); TLC explores every paragraph of <= 2 source lines x <= 2-3 words over {word, opening "
+             "tag, closing tag, -, |x} x indentation x widths x {plain, list item} and checks WordsPreserved and TagLinesStayAlone. Every "
+             "behaviour is replayed into the real line_wrap_to_width(is_markdown=True) (and line_wrap_by_sentence for the predicates); "
+             "spec/SegTrace.tla validates each observation against the machine (0 drift) and evaluates: atomic tokens whole, words "
+             "preserved, unindented tag-only lines stay alone, authored separation between tags. A second family puts 13 atomic constructs "
+             "into paragraphs at widths 1..24 in both modes (WrapTrace.tla: whole tokens, single spaces, over-width only for one token); a "
+             "third formats tag-delimited blocks with prose / lists / tables through reformat_text (tag lines alone and unindented, block "
+             "still a list/table in the real parse, blank-line separated).",
+        note="Trusted: output parsers of the harness (fixed token sets). Known findings D22 (authored space between tags removed) and D40 "
+             "(paired tag split on a continuation line) are excused only on their exact shapes.",
+        technique="TLA+ model checking (TLC) of Segments.tla + exhaustive replay + trace validation (SegTrace.tla, WrapTrace.tla)",
+        design="§6 C06, §12"),
     "C07": dict(
         level="model_checking",
         text="spec/Frontmatter.tla models a text as pieces (blank / --- / yaml / markdown) separated by LF, CRLF or a character that "
